@@ -290,6 +290,10 @@ Definition format_messages (bs : bundles_inner) keys errors :=
   | Stream stream => format_messages_from_stream stream keys errors
   end.
 
+(* the sequence a bundle set serves (iterator or stream) *)
+Definition served (bs : bundles_inner) : list bundle_result :=
+  match bs with Iter cache => cache | Stream stream => stream end.
+
 (* Result<T, LocalizationError> of the *_sync API; the errors vector and the pull count ride along *)
 Inductive sync_result (T : Type) := SOk (x : T) | SErr (e : lerr).
 Arguments SOk {T} x.
